@@ -406,6 +406,7 @@ func followUpSaves(dags, file string) string {
 	}
 	defer os.WriteFile(file, keep, 0o644)
 	ds := local.NewDAGStore(&local.NewDAGStoreArgs{Dir: dags})
+	defer local.VerifStop(ds)
 	for _, t := range []string{"steps:\n  - name: z\n    command: \"true\"\n", text(1) + "# " + strings.Repeat("tail ", 400) + "\n"} {
 		if err := ds.UpdateSpec("victim", []byte(t)); err != nil {
 			return fmt.Sprintf("a later save of a valid text fails: %v", err)
